@@ -349,8 +349,15 @@ def allocator(f):
             for n in reach:
                 rb = f.bodies[n]
                 for (bb, j, dst, rv, s) in rb.stores():
-                    if bb in rb.reachable and any(isinstance(e, dict) and e.get("name") == "packet_id" and e.get("of") == SDATA for e in dst["proj"]):
+                    if bb not in rb.reachable:
+                        continue
+                    if any(isinstance(e, dict) and e.get("name") == "packet_id" and e.get("of") == SDATA for e in dst["proj"]):
                         writes = True
+                    else:
+                        # through a `&mut self.packet_id` handed to a helper that was folded in
+                        t_ = rb.place_term(dst)
+                        if any(isinstance(x, tuple) and x[0] == "field" and x[2] == "packet_id" and x[3] == SDATA for x in walk(t_)):
+                            writes = True
             if writes:
                 cands.append(b)
     if len(cands) > 1:
@@ -804,3 +811,129 @@ def _pred_mutable_conditions(f, code, note, q, id_field, id_param):
                     isinstance(y, tuple) and y[0] == "call" and y[1] == nx.bb for y in walk(x[1])):
                 out.append("the entry's `%s`" % x[2])
     return out
+
+
+def step_constructions(f, ns):
+    """every `OutboundStep::<Kind>(..)` built in next_step, with the fields of the step it carries:
+    [dict(kind, bb, span, fields={name: term}, whole=bool)].  The step may be assembled field by field from an entry, or be
+    a copy of the whole entry (`OutboundStep::Control(*entry)` when the queue stores the step records themselves)."""
+    out = []
+    oadt = None
+    for n_, a_ in f.adts.items():
+        if n_.endswith("::OutboundStep") or n_ == "OutboundStep":
+            oadt = a_
+    for bb, j, s in ns.assigns():
+        rv = s["rv"]
+        if bb not in ns.reachable or "agg" not in rv or not (rv["agg"].get("adt") or "").endswith("OutboundStep"):
+            continue
+        kind = rv["agg"]["variant"]
+        t = ns.rvalue_term(rv)
+        inner = peel(t[5][0]) if t[5] else None
+        fields, whole = {}, False
+        if inner is not None and inner[0] == "agg" and inner[4]:
+            fields = dict(zip(inner[4], inner[5]))
+        elif inner is not None and oadt is not None:
+            # a copy of the entry itself: its fields are the entry's fields
+            pty = None
+            for v in oadt["variants"]:
+                if v["name"] == kind and v["fields"]:
+                    pty = v["fields"][0]["ty"]
+            padt = f.adts.get((pty or "").split("<")[0])
+            if padt and len(padt["variants"]) == 1:
+                whole = True
+                for fl in padt["variants"][0]["fields"]:
+                    fields[fl["name"]] = ("field", t[5][0], fl["name"], (pty or "").split("<")[0], None)
+        out.append({"kind": kind, "bb": bb, "span": s["span"], "fields": fields, "whole": whole})
+    return out
+
+
+@cached
+def removed_labels(f):
+    """{removal function name: label of its result that means "an entry was removed"} -- True for a `bool` result, the
+    variant name when the function answers with a two-variant enum (`AckOutcome::Removed`)"""
+    from .. import paths as _paths
+    out = {}
+    for role in ("retained_removal", "release_removal"):
+        try:
+            fn = role_fn(f, role)
+        except AnchorLost:
+            continue
+        code = f.code(fn)
+        rms = set(c.bb for c in code.calls.values() if c.bb in code.reachable and mname(c) in ("remove", "swap_remove"))
+        labs = set()
+        for lf in _paths.explore(code, 0, lambda t: False, lambda b, bb: bb in rms, max_paths=2000):
+            if lf["kind"] != "return" or not lf["marked"]:
+                continue
+            v = _paths.value_on_path(code, lf["path"], 0)
+            v = peel(v) if v is not None else None
+            if v is not None and v[0] == "const" and v[2] in (0, 1):
+                labs.add(bool(v[2]))
+            elif v is not None and v[0] == "agg" and v[1] == "adt" and v[3]:
+                labs.add(v[3])
+            else:
+                labs.add(None)
+        out[fn.name] = next(iter(labs)) if len(labs) == 1 else True
+    return out
+
+
+def removed_edge(f, fn, si):
+    """target of the edge of switch `si` (on the result of removal function `fn`) taken when an entry was removed"""
+    lab = removed_labels(f).get(fn.name, True)
+    return si["edges"].get(lab)
+
+
+def removed_edges(f, body, rc, fn):
+    """[(switch block, target)] -- the edges of `body` that are taken exactly when the removal call `rc` (to function `fn`)
+    removed an entry: a test of its boolean result, a match on its enum result, or a derived `==` / `!=` of the result
+    against one of the enum's variants"""
+    lab = removed_labels(f).get(fn.name, True)
+    out = []
+    for sb in body.switches:
+        if sb not in body.reachable:
+            continue
+        si = body.switch_info(sb)
+        for alt in phi_alts(si["subject"]):
+            x = peel(alt)
+            if isinstance(x, tuple) and x[0] == "discr":
+                x = peel(x[1])
+            neg = False
+            if isinstance(x, tuple) and x[0] == "un" and x[1] == "Not":
+                neg, x = True, peel(x[2])
+            if isinstance(x, tuple) and x[0] == "call" and x[1] == rc.bb:
+                want = lab if not neg else (not lab if isinstance(lab, bool) else None)
+                if want is not None and si["edges"].get(want) is not None:
+                    out.append((sb, si["edges"][want]))
+                elif isinstance(lab, str) and not neg and lab not in si["edges"] and si.get("otherwise") is not None \
+                        and lab in si.get("otherwise_variants", [lab]):
+                    out.append((sb, si["otherwise"]))
+                break
+            cmp_ = _variant_compare(x)
+            if cmp_ is not None and isinstance(lab, str):
+                eq_op, a, b = cmp_
+                for p_, q_ in ((a, b), (b, a)):
+                    if isinstance(p_, tuple) and p_[0] == "call" and p_[1] == rc.bb and q_[0] == "agg" and q_[1] == "adt" and not q_[5]:
+                        is_removed_variant = (q_[3] == lab)
+                        eq = eq_op
+                        # edge on which "result is the Removed variant" holds
+                        val = (is_removed_variant == eq)
+                        if neg:
+                            val = not val
+                        # only a two-variant enum lets `!= Stale` mean Removed
+                        adt = f.adts.get(q_[2])
+                        if is_removed_variant or (adt and len(adt["variants"]) == 2):
+                            if si["edges"].get(val) is not None:
+                                out.append((sb, si["edges"][val]))
+                        break
+    return out
+
+
+def _variant_compare(x):
+    """(is_eq, a, b) when x compares two enum values for (in)equality: `PartialEq::eq/ne(a, b)` or -- the derived impl
+    folded in -- `discriminant_value(a) ==/!= discriminant_value(b)`"""
+    if is_call(x, "core::cmp::PartialEq::eq", "core::cmp::PartialEq::ne") and len(x[3]) == 2:
+        return x[4].endswith("::eq"), peel(x[3][0]), peel(x[3][1])
+    if isinstance(x, tuple) and x[0] == "bin" and x[1] in ("Eq", "Ne"):
+        a, b = peel(x[2]), peel(x[3])
+        if is_call(a, "discriminant_value") and is_call(b, "discriminant_value") and a[3] and b[3]:
+            return x[1] == "Eq", peel(a[3][0]), peel(b[3][0])
+    return None
